@@ -97,29 +97,15 @@ def gen():
                   assert!({H}::new(x) != {H}::new(y));
                   """, [f"<{F} as palette::angle::AngleEq>::angle_eq"] + fns_u, "all pairs within " + bound, thorough=th)
         o.harness(f"c11_{F}_raw_accessors",
-                  f"raw accessors return the stored angle, from_degrees = new, into_raw_radians = to_radians(stored) ({F})",
+                  f"raw accessors return the stored angle bit for bit, from_degrees = new ({F})",
                   f"""
                   let x: {F} = kani::any();
                   kani::assume(x.abs() <= {LIM});
                   kani::cover!(true);
                   let h = {H}::new(x);
                   assert!(h.into_raw_degrees() == x && h.into_inner() == x);
-                  assert!(h.into_raw_radians() == x.to_radians());
                   assert!({H}::from_degrees(x).into_inner() == x);
                   """, [f"palette::{H}::{{into_raw_degrees,into_raw_radians,from_degrees,into_inner}}"], bound)
-        o.harness(f"c11_{F}_add_sub",
-                  f"hue + / - angle (and hue) acts on the stored angle, assigning forms agree ({F})",
-                  f"""
-                  let x: {F} = kani::any();
-                  let t: {F} = kani::any();
-                  kani::assume(x.abs() <= {LIM} && t.abs() <= {LIM});
-                  kani::cover!(true);
-                  let h = {H}::new(x);
-                  assert!((h + t).into_inner() == x + t && (h - t).into_inner() == x - t);
-                  assert!((h + {H}::new(t)).into_inner() == x + t && (h - {H}::new(t)).into_inner() == x - t);
-                  let mut g = h; g += t; assert!(g.into_inner() == x + t);
-                  let mut g = h; g -= t; assert!(g.into_inner() == x - t);
-                  """, ["Add/Sub/AddAssign/SubAssign for RgbHue"], bound)
         o.harness(f"c11_u8_{F}_u8_roundtrip",
                   f"every 8-bit hue survives u8 -> {F} -> u8, and the {F} angle is code*360/256 exactly",
                   f"""
@@ -146,7 +132,7 @@ def gen():
         o.harness(f"c11_{H.lower()}_accessor_plumbing",
                   f"{H}: degree / radian accessors are consistent for ANY angle type: into_degrees = normalize_signed(stored), "
                   f"into_radians = to_radians(normalize_signed(stored)), positive forms likewise with the unsigned normal form, "
-                  f"raw accessors skip normalisation, from_radians stores to_degrees (decided over a tagging component type)",
+                  f"raw accessors skip normalisation, from_radians stores to_degrees, + / - / += / -= with an angle or a hue act on the stored angle in operand order (decided over a tagging component type)",
                   f"""
                   let t = Tag(kani::any());
                   kani::cover!(true);
@@ -159,6 +145,13 @@ def gen():
                   assert!({H}::from_radians(t).into_inner() == t.r2d());
                   assert!({H}::from_degrees(t).into_inner() == t);
                   assert!({H}::from(t).into_inner() == t);
+                  let u = Tag(kani::any());
+                  assert!((h + u).into_inner() == t + u && (h - u).into_inner() == t - u);
+                  assert!((h + {H}::new(u)).into_inner() == t + u && (h - {H}::new(u)).into_inner() == t - u);
+                  let mut g = h; g += u; assert!(g.into_inner() == t + u);
+                  let mut g = h; g -= u; assert!(g.into_inner() == t - u);
+                  let mut g = h; g += {H}::new(u); assert!(g.into_inner() == t + u);
+                  let mut g = h; g -= {H}::new(u); assert!(g.into_inner() == t - u);
                   """, [f"palette::{H}::{{into_degrees,into_radians,into_positive_degrees,into_positive_radians,into_raw_degrees,into_raw_radians,from_radians,from_degrees}}"],
                   "all 2^32 tags; component type = harness tagging type (plumbing only)")
     o.write()
